@@ -285,6 +285,7 @@ enum Verdict {
 /// coordinates the source does not have
 fn open_and_compare(rt: &tokio::runtime::Runtime, container: char, bytes: &[u8], src: &Src) -> (Verdict, String) {
 	let data = bytes.to_vec();
+	let opened = std::sync::atomic::AtomicBool::new(false);
 	let r = catch(|| {
 		rt.block_on(async {
 			let reader: Box<dyn TilesReaderTrait> = if container == 'v' {
@@ -329,10 +330,50 @@ fn open_and_compare(rt: &tokio::runtime::Runtime, container: char, bytes: &[u8],
 					}
 				}
 			}
+			// what the container ADVERTISES is part of what it reports: (a) the coverage in its parameters
+			// contains every source tile (C03's statement), (b) streaming the advertised levels delivers
+			// every source tile – consumers (convert, TileJSON zoom range, level streams) go through these
+			opened.store(true, std::sync::atomic::Ordering::SeqCst);
+			let pyramid = reader.get_parameters().bbox_pyramid.clone();
+			for (c, _) in &src.tiles {
+				if !pyramid.contains_coord(c) && bad.is_none() {
+					bad = Some(format!("tile {}/{}/{} is stored but outside the advertised coverage", c.z, c.x, c.y));
+				}
+			}
+			if bad.is_none() {
+				let mut streamed: std::collections::HashMap<(u8, u32, u32), Vec<u8>> = std::collections::HashMap::new();
+				// whole levels up to 4096 tiles; of larger levels the 3 × 3 neighbourhoods of the source tiles
+				// (clipped to the advertised level box)
+				let mut levels: Vec<TileBBox> = vec![];
+				for b in pyramid.iter_levels().filter(|b| !b.is_empty()) {
+					if b.count_tiles() <= 4096 {
+						levels.push(b.clone());
+					} else {
+						for (c, _) in src.tiles.iter().filter(|(c, _)| c.z == b.level && b.x_min <= c.x && c.x <= b.x_max && b.y_min <= c.y && c.y <= b.y_max) {
+							let (x0, y0) = (c.x.saturating_sub(1).max(b.x_min), c.y.saturating_sub(1).max(b.y_min));
+							let (x1, y1) = ((c.x + 1).min(b.x_max), (c.y + 1).min(b.y_max));
+							if let Ok(nb) = TileBBox::new(b.level, x0, y0, x1, y1) {
+								levels.push(nb);
+							}
+						}
+					}
+				}
+				for b in levels {
+					for (c, blob) in reader.get_bbox_tile_stream(b).await.collect().await {
+						streamed.insert((c.z, c.x, c.y), blob.into_vec());
+					}
+				}
+				for (c, b) in &src.tiles {
+					if streamed.get(&(c.z, c.x, c.y)) != Some(b) && bad.is_none() {
+						bad = Some(format!("tile {}/{}/{} is not delivered intact by streaming the advertised levels", c.z, c.x, c.y));
+					}
+				}
+			}
 			anyhow::Ok(bad)
 		})
 	});
 	match r {
+		Err(p) if opened.load(std::sync::atomic::Ordering::SeqCst) => (Verdict::Wrong, format!("panic after the open succeeded (coverage / level streams): {}", trunc(&p, 80))),
 		Err(p) => (Verdict::Panic, trunc(&p, 100)),
 		Ok(Err(e)) => (Verdict::Fail, trunc(&format!("{e:#}"), 100)),
 		Ok(Ok(None)) => (Verdict::Intact, String::new()),
@@ -685,7 +726,7 @@ fn emit_overwrite(out: &mut Out, rng: &mut Rng, laws: &mut Laws, dir: &std::path
 pub fn run(args: &Args) {
 	quiet_panics();
 	let mut out = Out::new(&args.out);
-	out.rule = "tile sets of 1–14 (thorough: also 40–300) tiles over zoom 0–10 with empty, duplicate, tiny and ≥1000-byte payloads, formats pbf/png/bin/json/webp, declared compression none/gzip/brotli; the REAL VersaTilesWriter and PMTilesWriter run against a recording DataWriterTrait; crash states = every op-prefix, EVERY byte cut of the provisional header and of the final header rewrite (66 resp. 127 cuts; sampled for the large thorough sets), first/last/middle/2 random byte cuts of every other op, and the completed file; additionally the same through the REAL DataWriterFile (every call forwarded, the file copied after each completed call, byte cuts applied to the copy): on a fresh path, and with a DIFFERENT tile set written over the completed container at the same path (old file longer and shorter than the new one) – judged against the NEW source; each state is materialised (positional write, zero fill) and opened with the real reader, all source tiles and neighbouring absent coordinates are compared; non-trivial = a state inside an operation or inside the header rewrite; distinct by (ops, cut)".into();
+	out.rule = "tile sets of 1–14 (thorough: also 40–300) tiles over zoom 0–10 with empty, duplicate, tiny and ≥1000-byte payloads, formats pbf/png/bin/json/webp, declared compression none/gzip/brotli; the REAL VersaTilesWriter and PMTilesWriter run against a recording DataWriterTrait; crash states = every op-prefix, EVERY byte cut of the provisional header and of the final header rewrite (66 resp. 127 cuts; sampled for the large thorough sets), first/last/middle/2 random byte cuts of every other op, and the completed file; additionally the same through the REAL DataWriterFile (every call forwarded, the file copied after each completed call, byte cuts applied to the copy): on a fresh path, and with a DIFFERENT tile set written over the completed container at the same path (old file longer and shorter than the new one) – judged against the NEW source; each state is materialised (positional write, zero fill) and opened with the real reader, all source tiles and neighbouring absent coordinates are compared, the advertised coverage must contain every source tile and streaming the advertised levels must deliver every source tile; non-trivial = a state inside an operation or inside the header rewrite; distinct by (ops, cut)".into();
 	let mut laws = Laws { nil_tests: 0, be_tests: 0, prefix_tests: 0, accepted: vec![] };
 	let mut rng = Rng::new(args.seed);
 	if let Some(p) = &args.replay {
